@@ -411,6 +411,11 @@ class KmipEngine(object):
                     )
                     self._logger.exception(e)
 
+                    # The failure may have left the data session inside a
+                    # failed transaction (e.g., an error raised during a
+                    # flush); later batch items must not inherit it.
+                    self._data_session.rollback()
+
                     error_occurred = True
                     result_status = enums.ResultStatus.OPERATION_FAILED
                     result_reason = enums.ResultReason.GENERAL_FAILURE
